@@ -2843,3 +2843,109 @@ Proof.
   apply negb_true_iff in Hnr. cbn [fst] in Hnr.
   rewrite Forall_forall in Hlow. apply extra_name_not_required; [exact (Hlow _ Hin0) | exact Hnr].
 Qed.
+
+(* ------------------------------------------------------------------------------------------ *)
+(** * Acceptance stated on membership: the four headers, each name once, anywhere in the list *)
+
+Lemma hget_in_once : forall name v hs, In (name, v) hs -> (hcount name hs <= 1)%nat -> hget name hs = Some v.
+Proof.
+  intros name v hs. induction hs as [|[n x] r IH]; intros Hin Hc; [contradiction|].
+  rewrite hget_cons. rewrite hcount_cons in Hc. unfold hmatch in Hc. cbn [fst] in Hc.
+  destruct Hin as [Hin|Hin].
+  - inversion Hin; subst. rewrite bytes_eqb_refl. reflexivity.
+  - destruct (bytes_eqb n name) eqn:E.
+    + exfalso. assert (hcount name r = 0%nat) as Hz by lia.
+      apply hcount_zero_hget in Hz. apply hget_none_iff with (v := v) in Hz. contradiction.
+    + apply IH; assumption.
+Qed.
+
+Lemma create_parts_accepts_members : forall hs c u key,
+  once_each hs ->
+  In (B"connection", c) hs -> forallb visible c = true -> has_upgrade_token c = true ->
+  In (B"upgrade", u) hs -> eq_ic u B"websocket" = true ->
+  In (B"sec-websocket-version", B"13") hs ->
+  In (B"sec-websocket-key", key) hs ->
+  create_parts true true hs = HOk (accept_headers key).
+Proof.
+  intros hs c u key Ho Hc Hcv Hct Hu Hue Hv Hk.
+  assert (forall name, In name decision_names -> (hcount name hs <= 1)%nat) as Ho' by exact Ho.
+  apply create_parts_ok_iff. split; [reflexivity|]. split; [reflexivity|].
+  split; [exists c; split; [apply hget_in_once; [exact Hc | apply Ho'; cbn; auto] | auto]|].
+  split; [exists u; split; [apply hget_in_once; [exact Hu | apply Ho'; cbn; auto] | auto]|].
+  split; [apply hget_in_once; [exact Hv | apply Ho'; cbn; auto]|].
+  exists key. split; [apply hget_in_once; [exact Hk | apply Ho'; cbn; auto 6] | reflexivity].
+Qed.
+
+(* ------------------------------------------------------------------------------------------ *)
+(** * The tail of a client handshake against the byte stream, under the parser hypotheses
+   P1 (the consumed length lies inside the buffer) and P2 (a complete head stays the same head
+   when more bytes follow) *)
+
+Lemma dropN_app_le : forall (n : N) (a x : bytes), n <= blen a -> dropN n (a ++ x) = dropN n a ++ x.
+Proof.
+  intros n a x H. unfold dropN, blen in *. rewrite skipn_app.
+  replace (N.to_nat n - List.length a)%nat with 0%nat by lia. reflexivity.
+Qed.
+
+Section ClientTail.
+  Variable oracle_req : bytes -> oracle_out raw_req.
+  Variable oracle_resp : bytes -> oracle_out raw_resp.
+  Hypothesis P1 : forall buf n a, oracle_resp buf = OComplete n a -> n <= blen buf.
+  Hypothesis P2 : forall buf more n a, oracle_resp buf = OComplete n a -> oracle_resp (buf ++ more) = OComplete n a.
+  Notation chake := (client_handshake oracle_req oracle_resp).
+
+  (* nothing that followed the head is lost: tail ++ whatever comes later = the stream minus the head *)
+  Theorem client_tail_stream : forall scheme_ok path hs w tail w' hlog,
+    chake scheme_ok path hs w = (HsDone Client tail, w', hlog) ->
+    exists n raw, oracle_resp (hs_data_read hlog) = OComplete n raw /\ n <= blen (hs_data_read hlog) /\
+      forall later, tail ++ later = dropN n (hs_data_read hlog ++ later).
+  Proof.
+    intros scheme_ok path hs w tail w' hlog H.
+    destruct (client_done_shape _ _ _ _ _ _ _ _ _ _ H)
+      as (_ & _ & subs & req & key & n & raw & _ & _ & _ & _ & Ho & _ & _ & _ & Ht & _).
+    exists n, raw. pose proof (P1 _ _ _ Ho) as Hn. split; [exact Ho|]. split; [exact Hn|].
+    intro later. subst tail. symmetry. apply dropN_app_le. exact Hn.
+  Qed.
+
+  (* two handshakes over two segmentations of the same stream hand the same bytes to the new socket *)
+  Theorem client_tail_segmentation : forall s1 s2 path1 path2 hs1 hs2 w1 w2 tail1 tail2 w1' w2' hlog1 hlog2 later1 later2,
+    chake s1 path1 hs1 w1 = (HsDone Client tail1, w1', hlog1) ->
+    chake s2 path2 hs2 w2 = (HsDone Client tail2, w2', hlog2) ->
+    hs_data_read hlog1 ++ later1 = hs_data_read hlog2 ++ later2 ->
+    tail1 ++ later1 = tail2 ++ later2.
+  Proof.
+    intros s1 s2 path1 path2 hs1 hs2 w1 w2 tail1 tail2 w1' w2' hlog1 hlog2 later1 later2 H1 H2 Hs.
+    destruct (client_tail_stream _ _ _ _ _ _ _ H1) as [n1 [raw1 [Ho1 [Hn1 Ht1]]]].
+    destruct (client_tail_stream _ _ _ _ _ _ _ H2) as [n2 [raw2 [Ho2 [Hn2 Ht2]]]].
+    rewrite Ht1, Ht2, Hs. f_equal.
+    apply app_eq_app in Hs. destruct Hs as [l [[Ha _]|[Ha _]]].
+    - rewrite Ha in Ho1. rewrite (P2 _ l _ _ Ho2) in Ho1. inversion Ho1. reflexivity.
+    - rewrite Ha in Ho2. rewrite (P2 _ l _ _ Ho1) in Ho2. inversion Ho2. reflexivity.
+  Qed.
+End ClientTail.
+
+(* a parser oracle satisfying P1 and P2 (used for non-vacuity): complete exactly when the buffer
+   starts with a fixed head *)
+Definition prefix_oracle {A : Type} (head : bytes) (a : A) (buf : bytes) : oracle_out A :=
+  if bytes_eqb (takeN (blen head) buf) head then OComplete (blen head) a else OPartial.
+
+Lemma prefix_oracle_P1P2 : forall (A : Type) (head : bytes) (a : A),
+  (forall buf n x, prefix_oracle head a buf = OComplete n x -> n <= blen buf) /\
+  (forall buf more n x, prefix_oracle head a buf = OComplete n x ->
+                        prefix_oracle head a (buf ++ more) = OComplete n x).
+Proof.
+  intros A head a.
+  assert (forall buf, bytes_eqb (takeN (blen head) buf) head = true -> (List.length head <= List.length buf)%nat) as Hlen.
+  { intros buf E. apply bytes_eqb_eq in E. unfold takeN, blen in E.
+    rewrite Nat2N.id in E. rewrite <- E at 1. rewrite firstn_length. lia. }
+  split.
+  - intros buf n x. unfold prefix_oracle. destruct (bytes_eqb (takeN (blen head) buf) head) eqn:E; [|discriminate].
+    intro H. inversion H; subst. specialize (Hlen buf E). unfold blen. lia.
+  - intros buf more n x. unfold prefix_oracle.
+    destruct (bytes_eqb (takeN (blen head) buf) head) eqn:E; [|discriminate].
+    intro H. specialize (Hlen buf E).
+    assert (takeN (blen head) (buf ++ more) = takeN (blen head) buf) as Ht.
+    { unfold takeN, blen. rewrite Nat2N.id, firstn_app.
+      replace (List.length head - List.length buf)%nat with 0%nat by lia. cbn [firstn]. apply app_nil_r. }
+    rewrite Ht, E. exact H.
+Qed.
